@@ -133,65 +133,90 @@ def decode (opc : Nat) : Instr :=
 -- ---------------------------------------------------------------------------------------------------------------------
 -- results of the computational opcodes, by opcode
 
+def implAlu1 (opc : Nat) (x : Int) : Option Int :=
+  if opc = 0x15 then some (opIszero x)
+  else if opc = 0x19 then some (opNot x)
+  else none
+
+def implAlu2 (opc : Nat) (x y : Int) : Option Int :=
+  if opc = 0x01 then some (opAdd x y)
+  else if opc = 0x02 then some (opMul x y)
+  else if opc = 0x03 then some (opSub x y)
+  else if opc = 0x04 then some (opDiv x y)
+  else if opc = 0x05 then some (opSdiv x y)
+  else if opc = 0x06 then some (opMod x y)
+  else if opc = 0x07 then some (opSmod x y)
+  else if opc = 0x0a then some (opExp x y)
+  else if opc = 0x0b then some (opSignExtend x y)
+  else if opc = 0x10 then some (opLt x y)
+  else if opc = 0x11 then some (opGt x y)
+  else if opc = 0x12 then some (opSlt x y)
+  else if opc = 0x13 then some (opSgt x y)
+  else if opc = 0x14 then some (opEq x y)
+  else if opc = 0x16 then some (opAnd x y)
+  else if opc = 0x17 then some (opOr x y)
+  else if opc = 0x18 then some (opXor x y)
+  else if opc = 0x1a then some (opByte x y)
+  else if opc = 0x1b then some (opSHL x y)
+  else if opc = 0x1c then some (opSHR x y)
+  else if opc = 0x1d then some (opSAR x y)
+  else none
+
+def implAlu3 (opc : Nat) (x y z : Int) : Option Int :=
+  if opc = 0x08 then some (opAddmod x y z)
+  else if opc = 0x09 then some (opMulmod x y z)
+  else none
+
+/-- the op* function of a computational opcode applied to the popped operands (first = top of stack) -/
 def implAlu (opc : Nat) (a : List Int) : Option Int :=
-  match opc, a with
-  | 0x01, [x, y] => some (opAdd x y)
-  | 0x02, [x, y] => some (opMul x y)
-  | 0x03, [x, y] => some (opSub x y)
-  | 0x04, [x, y] => some (opDiv x y)
-  | 0x05, [x, y] => some (opSdiv x y)
-  | 0x06, [x, y] => some (opMod x y)
-  | 0x07, [x, y] => some (opSmod x y)
-  | 0x08, [x, y, z] => some (opAddmod x y z)
-  | 0x09, [x, y, z] => some (opMulmod x y z)
-  | 0x0a, [x, y] => some (opExp x y)
-  | 0x0b, [x, y] => some (opSignExtend x y)
-  | 0x10, [x, y] => some (opLt x y)
-  | 0x11, [x, y] => some (opGt x y)
-  | 0x12, [x, y] => some (opSlt x y)
-  | 0x13, [x, y] => some (opSgt x y)
-  | 0x14, [x, y] => some (opEq x y)
-  | 0x15, [x] => some (opIszero x)
-  | 0x16, [x, y] => some (opAnd x y)
-  | 0x17, [x, y] => some (opOr x y)
-  | 0x18, [x, y] => some (opXor x y)
-  | 0x19, [x] => some (opNot x)
-  | 0x1a, [x, y] => some (opByte x y)
-  | 0x1b, [x, y] => some (opSHL x y)
-  | 0x1c, [x, y] => some (opSHR x y)
-  | 0x1d, [x, y] => some (opSAR x y)
-  | _, _ => none
+  match a with
+  | [x] => implAlu1 opc x
+  | [x, y] => implAlu2 opc x y
+  | [x, y, z] => implAlu3 opc x y z
+  | _ => none
 
 def w256 (x : Int) : EvmSpec.W := BitVec.ofNat 256 x.toNat
 
+def specAlu1 (opc : Nat) (x : EvmSpec.W) : Option EvmSpec.W :=
+  if opc = 0x15 then some (EvmSpec.iszero x)
+  else if opc = 0x19 then some (EvmSpec.not x)
+  else none
+
+def specAlu2 (opc : Nat) (x y : EvmSpec.W) : Option EvmSpec.W :=
+  if opc = 0x01 then some (EvmSpec.add x y)
+  else if opc = 0x02 then some (EvmSpec.mul x y)
+  else if opc = 0x03 then some (EvmSpec.sub x y)
+  else if opc = 0x04 then some (EvmSpec.div x y)
+  else if opc = 0x05 then some (EvmSpec.sdiv x y)
+  else if opc = 0x06 then some (EvmSpec.mod x y)
+  else if opc = 0x07 then some (EvmSpec.smod x y)
+  else if opc = 0x0a then some (EvmSpec.exp x y)
+  else if opc = 0x0b then some (EvmSpec.signextend x y)
+  else if opc = 0x10 then some (EvmSpec.lt x y)
+  else if opc = 0x11 then some (EvmSpec.gt x y)
+  else if opc = 0x12 then some (EvmSpec.slt x y)
+  else if opc = 0x13 then some (EvmSpec.sgt x y)
+  else if opc = 0x14 then some (EvmSpec.eq x y)
+  else if opc = 0x16 then some (EvmSpec.and x y)
+  else if opc = 0x17 then some (EvmSpec.or x y)
+  else if opc = 0x18 then some (EvmSpec.xor x y)
+  else if opc = 0x1a then some (EvmSpec.byte x y)
+  else if opc = 0x1b then some (EvmSpec.shl x y)
+  else if opc = 0x1c then some (EvmSpec.shr x y)
+  else if opc = 0x1d then some (EvmSpec.sar x y)
+  else none
+
+def specAlu3 (opc : Nat) (x y z : EvmSpec.W) : Option EvmSpec.W :=
+  if opc = 0x08 then some (EvmSpec.addmod x y z)
+  else if opc = 0x09 then some (EvmSpec.mulmod x y z)
+  else none
+
 def specAluW (opc : Nat) (a : List EvmSpec.W) : Option EvmSpec.W :=
-  match opc, a with
-  | 0x01, [x, y] => some (EvmSpec.add x y)
-  | 0x02, [x, y] => some (EvmSpec.mul x y)
-  | 0x03, [x, y] => some (EvmSpec.sub x y)
-  | 0x04, [x, y] => some (EvmSpec.div x y)
-  | 0x05, [x, y] => some (EvmSpec.sdiv x y)
-  | 0x06, [x, y] => some (EvmSpec.mod x y)
-  | 0x07, [x, y] => some (EvmSpec.smod x y)
-  | 0x08, [x, y, z] => some (EvmSpec.addmod x y z)
-  | 0x09, [x, y, z] => some (EvmSpec.mulmod x y z)
-  | 0x0a, [x, y] => some (EvmSpec.exp x y)
-  | 0x0b, [x, y] => some (EvmSpec.signextend x y)
-  | 0x10, [x, y] => some (EvmSpec.lt x y)
-  | 0x11, [x, y] => some (EvmSpec.gt x y)
-  | 0x12, [x, y] => some (EvmSpec.slt x y)
-  | 0x13, [x, y] => some (EvmSpec.sgt x y)
-  | 0x14, [x, y] => some (EvmSpec.eq x y)
-  | 0x15, [x] => some (EvmSpec.iszero x)
-  | 0x16, [x, y] => some (EvmSpec.and x y)
-  | 0x17, [x, y] => some (EvmSpec.or x y)
-  | 0x18, [x, y] => some (EvmSpec.xor x y)
-  | 0x19, [x] => some (EvmSpec.not x)
-  | 0x1a, [x, y] => some (EvmSpec.byte x y)
-  | 0x1b, [x, y] => some (EvmSpec.shl x y)
-  | 0x1c, [x, y] => some (EvmSpec.shr x y)
-  | 0x1d, [x, y] => some (EvmSpec.sar x y)
-  | _, _ => none
+  match a with
+  | [x] => specAlu1 opc x
+  | [x, y] => specAlu2 opc x y
+  | [x, y, z] => specAlu3 opc x y z
+  | _ => none
 
 def specAlu (opc : Nat) (a : List Int) : Option Int :=
   (specAluW opc (a.map w256)).map fun v => Int.ofNat v.toNat
